@@ -12,7 +12,7 @@ from .basic_functions import (Operation as Op, Sequence, Function, argmin)
 from .utils import revolver_parameters
 
 
-def get_hopt_table(lmax, cvect, wvect, rvect, ub, uf):
+def get_hopt_table(lmax, cvect, wvect, rvect, uf, ub):
     """ Compute the optimal hierarchical execution time
     for the H-Revolve algorithm.
 
@@ -28,10 +28,10 @@ def get_hopt_table(lmax, cvect, wvect, rvect, ub, uf):
     rvect : tuple
         A tuple with the cost of reading the checkpoint data in each of the K
         levels.
-    ub : float, optional
-        The cost of advancing the adjoint over one step.
     uf : float
         The cost of advancing the forward over one step.
+    ub : float
+        The cost of advancing the adjoint over one step.
 
     Notes
     -----
